@@ -151,6 +151,12 @@ def run(ctx):
         ab = ctx.anchor_fn("R08.2", "watchexec::late_join_set::LateJoinSet::abort_all")
         fe = [tt for _, tt in ab.calls() if tt.callee.is_("core::iter::traits::iterator::Iterator::for_each")]
         ok = len(fe) == 1 and fe[0].args[1].const_fn() is not None and fe[0].args[1].const_fn().is_("JoinHandle::abort", "tokio::runtime::task::join::JoinHandle::abort")
+        if not ok:
+            # the same written as `for task in &self.tasks { task.abort() }`: every iteration aborts the loop variable and nothing leaves the loop early
+            for q in pathx.Enum().paths(thir.root(ab)):
+                lp = [e for e in q.ev if e[0] == "loop" and "self.tasks" in e[2]]
+                if len(lp) == 1 and lp[0][1] and all(any(x[0] == "call" and strip_generics(x[1]).endswith("JoinHandle::abort") for x in it) and ("loop-break",) not in it for it in lp[0][1]) and q.out == "val":
+                    ok = True
         ctx.require(ok, "R08.2", "abort-all-aborts-each", "abort_all aborts every task handle", ab.loc(ab.line))
         # the set really holds what is put into it and join_all really waits for all of it
         LJ = "watchexec::late_join_set::LateJoinSet"
@@ -164,20 +170,35 @@ def run(ctx):
                     fail="LateJoinSet::spawn does not spawn-and-keep the task: the per-job shutdown tasks of a graceful quit never run or are not waited for")
         ja = ctx.anchor_one("R08.3", "LateJoinSet::join_all coroutine", [c for c in facts.children(ctx.anchor_fn("R08.3", LJ + "::join_all")) if c.kind == "coroutine"])
         okj = False
+        JNX = "await LateJoinSet::join_next(self)"
+
+        def opt_evidence(evs):
+            """what a sequence of events says about join_next()'s result: 'some' / 'none' / None - whichever way the test is spelled
+            (is_some / is_none, if let, match arms)"""
+            got = set()
+            for e in evs:
+                if e[0] == "branch":
+                    d = e[1].replace("Option::is_none(", "Not Option::is_some(")
+                    core, neg = pathx.split_not(d)
+                    if core == "Option::is_some(%s)" % JNX:
+                        got.add("some" if (e[2] != neg) else "none")
+                elif e[0] == "iflet" and e[1] == JNX and e[2]:
+                    vs = set(e[2])
+                    if vs == {"Some"}:
+                        got.add("some" if e[3] else "none")
+                    elif vs == {"None"}:
+                        got.add("none" if e[3] else "some")
+                elif e[0] == "arm" and e[1] == JNX:
+                    ps = e[2][0]
+                    got.add("some" if ps.startswith("Some") else ("none" if ps.startswith("None") else "?"))
+            return got.pop() if len(got) == 1 else None
         for q in pathx.Enum().paths(thir.root(ja)):
             loops = [e for e in q.ev if e[0] == "loop"]
-            # the loop goes on exactly while join_next() yields Some, and is left only on None
-            conds = set()
-            for l in loops:
-                for it in l[1]:
-                    for e in it:
-                        if e[0] == "branch":
-                            conds.add(("in", e[1].replace("Option::is_none", "Not Option::is_some") if False else e[1], e[2]))
-            exit_c = [(e[1], e[2]) for e in q.ev if e[0] == "branch"]
-            JN = "Option::is_some(await LateJoinSet::join_next(self))"
-            from ..throttle import implies
-            stay = all(implies(d.replace("Option::is_none(", "Not Option::is_some("), tr, JN, True) for _, d, tr in conds) and bool(conds)
-            leave = any(implies(d.replace("Option::is_none(", "Not Option::is_some("), tr, JN, False) for d, tr in exit_c)
+            stay = bool(loops) and all(opt_evidence(it) == "some" or ("loop-break",) in it and opt_evidence(it) == "none" for l in loops for it in l[1])
+            stay = stay and any(opt_evidence(it) == "some" for l in loops for it in l[1])
+            inner_exit = any(("loop-break",) in it and opt_evidence(it) == "none" for l in loops for it in l[1])
+            after = [e for e in q.ev if e[0] != "loop"]
+            leave = inner_exit or opt_evidence(after) == "none"
             okj = okj or (len(loops) == 1 and stay and leave and q.out == "val")
         ctx.require(okj, "R08.3", "set:join-all", "join_all keeps joining while join_next() yields a task and returns only when the set is empty", ja.loc(ja.line),
                     fail="LateJoinSet::join_all no longer waits until every task has been joined: a graceful quit returns while job tasks (and their processes) are still alive")
